@@ -138,6 +138,7 @@ func Routes(c explore.Chooser) *prog.Program {
 	layout := s.Pick("layout", "r0-first-of-3", "r0-last-of-3", "r0-only", "r0-middle-with-noise")
 	prefix := s.Pick("prefix", "", "/api", "/zzz", "/api/it", "/inner")
 	regSite := s.Pick("registration", "in-func", "in-method", "two-funcs", "nested-block")
+	shadow := s.Pick("shadowed-const", "no", "local-shadows-package-const", "two-locals-same-name")
 
 	// de-duplicate statements using the same variables (same statement chosen twice)
 	seen := map[string]bool{}
@@ -246,6 +247,24 @@ func Routes(c explore.Chooser) *prog.Program {
 		}
 		a.WriteString("\t\t}\n\t}\n}\n")
 	}
+
+	// the same spelling of a constant, bound to different values in two scopes
+	var extraRoutes []Route
+	switch shadow {
+	case "local-shadows-package-const":
+		a.WriteString("\nfunc routesPkgConst(e *echo.Echo, ct controller) {\n\te.DELETE(pkgURL, ct.create)\n}\n\nfunc routesShadow(e *echo.Echo, ct controller) {\n\tconst pkgURL = \"/api/shadow/\"\n\te.PUT(pkgURL, ct.create)\n}\n")
+		extraRoutes = []Route{
+			{Verb: "DELETE", URL: "/api/pkg/", Handler: "create", Input: "In", Return: "Out", Pkg: "main"},
+			{Verb: "PUT", URL: "/api/shadow/", Handler: "create", Input: "In", Return: "Out", Pkg: "main"},
+		}
+	case "two-locals-same-name":
+		a.WriteString("\nfunc routesOne(e *echo.Echo, ct controller) {\n\tconst base = \"/api/one\"\n\te.DELETE(base, ct.create)\n}\n\nfunc routesTwo(e *echo.Echo, ct controller) {\n\tconst base = \"/zone/two\"\n\te.PUT(base, ct.create)\n}\n")
+		extraRoutes = []Route{
+			{Verb: "DELETE", URL: "/api/one", Handler: "create", Input: "In", Return: "Out", Pkg: "main"},
+			{Verb: "PUT", URL: "/zone/two", Handler: "create", Input: "In", Return: "Out", Pkg: "main"},
+		}
+	}
+	routes = append(routes, extraRoutes...)
 
 	innerSrc := "package inner\n\nimport (\n\t\"fmt\"\n\n\t\"" + echoPath + "\"\n)\n\nconst Url = \"/inner/\"\n\ntype Controller struct{}\n\nfunc (Controller) HandleExt(c echo.Context) error {\n\tvar in []int64\n\tt, v := c.QueryParam(\"query1\"), c.QueryParam(\"query2\")\n\terr := c.Bind(&in)\n\t_ = fmt.Errorf(\"%s%s%s\", t, v, err)\n\tvar out map[string][]int\n\treturn c.JSON(200, out)\n}\n\nfunc TopLevel(c echo.Context) error {\n\treturn nil\n}\n"
 	hdr := "package main\n\nimport (\n\t\"" + echoPath + "\"\n\t\"" + innerPath + "\"\n)\n\n"
